@@ -1,0 +1,108 @@
+//go:build verif
+
+package litefs
+
+import (
+	"sort"
+
+	"github.com/superfly/ltx"
+)
+
+// Read-only accessors and a lock-transition callback installer used by the
+// external verification harness. Only compiled with the "verif" build tag.
+
+// VerifChecksumCache returns copies of the per-page and per-block checksum caches.
+func (db *DB) VerifChecksumCache() (pages, blocks []ltx.Checksum) {
+	db.chksums.mu.Lock()
+	defer db.chksums.mu.Unlock()
+	return append([]ltx.Checksum(nil), db.chksums.pages...), append([]ltx.Checksum(nil), db.chksums.blocks...)
+}
+
+// VerifWAL is a snapshot of the in-memory WAL bookkeeping.
+type VerifWAL struct {
+	Offset           int64
+	Salt1, Salt2     uint32
+	Chksum1, Chksum2 uint32
+	FrameOffsets     map[uint32]int64
+	Chksums          map[uint32][]ltx.Checksum
+}
+
+// VerifWALState returns a copy of the in-memory WAL bookkeeping.
+func (db *DB) VerifWALState() VerifWAL {
+	w := VerifWAL{
+		Offset: db.wal.offset, Salt1: db.wal.salt1, Salt2: db.wal.salt2,
+		Chksum1: db.wal.chksum1, Chksum2: db.wal.chksum2,
+		FrameOffsets: map[uint32]int64{}, Chksums: map[uint32][]ltx.Checksum{},
+	}
+	for k, v := range db.wal.frameOffsets {
+		w.FrameOffsets[k] = v
+	}
+	for k, v := range db.wal.chksums {
+		w.Chksums[k] = append([]ltx.Checksum(nil), v...)
+	}
+	return w
+}
+
+// VerifDirtyPages returns the sorted dirty page set.
+func (db *DB) VerifDirtyPages() []uint32 {
+	a := make([]uint32, 0, len(db.dirtyPageSet))
+	for pgno := range db.dirtyPageSet {
+		a = append(a, pgno)
+	}
+	sort.Slice(a, func(i, j int) bool { return a[i] < a[j] })
+	return a
+}
+
+// VerifPageSize returns the page size learnt so far (0 if none).
+func (db *DB) VerifPageSize() uint32 { return db.pageSize }
+
+// VerifSetLockHook installs fn as OnLockStateChange on all twelve locks.
+// Must be called before the locks are used.
+func (db *DB) VerifSetLockHook(fn func(lockType LockType, prev, next RWMutexState)) {
+	set := func(rw *RWMutex, t LockType) {
+		rw.OnLockStateChange = func(prev, next RWMutexState) { fn(t, prev, next) }
+	}
+	set(&db.pendingLock, LockTypePending)
+	set(&db.sharedLock, LockTypeShared)
+	set(&db.reservedLock, LockTypeReserved)
+	set(&db.writeLock, LockTypeWrite)
+	set(&db.ckptLock, LockTypeCkpt)
+	set(&db.recoverLock, LockTypeRecover)
+	set(&db.read0Lock, LockTypeRead0)
+	set(&db.read1Lock, LockTypeRead1)
+	set(&db.read2Lock, LockTypeRead2)
+	set(&db.read3Lock, LockTypeRead3)
+	set(&db.read4Lock, LockTypeRead4)
+	set(&db.dmsLock, LockTypeDMS)
+}
+
+// VerifLockState returns the mutex state of one of the twelve locks.
+func (db *DB) VerifLockState(t LockType) RWMutexState {
+	switch t {
+	case LockTypePending:
+		return db.pendingLock.State()
+	case LockTypeShared:
+		return db.sharedLock.State()
+	case LockTypeReserved:
+		return db.reservedLock.State()
+	case LockTypeWrite:
+		return db.writeLock.State()
+	case LockTypeCkpt:
+		return db.ckptLock.State()
+	case LockTypeRecover:
+		return db.recoverLock.State()
+	case LockTypeRead0:
+		return db.read0Lock.State()
+	case LockTypeRead1:
+		return db.read1Lock.State()
+	case LockTypeRead2:
+		return db.read2Lock.State()
+	case LockTypeRead3:
+		return db.read3Lock.State()
+	case LockTypeRead4:
+		return db.read4Lock.State()
+	case LockTypeDMS:
+		return db.dmsLock.State()
+	}
+	return RWMutexStateUnlocked
+}
